@@ -16,7 +16,14 @@ All theorems: ∀ sizes, ∀ indices, ∀ bit lists, ∀ tables of tokens. Model
 all executed against the code by the C19 correspondence check (`harness/c19.py`, ops `c19.*`).
 Specification side: `Nat.testBit`, Mathlib `∑`, `finProdFinEquiv` (the row-major flattening of a
 Kronecker product), `List.Sublist`, `List.finRange`-indexed filters, the table printer `printTable`, and the
-writer-side predicates `GoodTok` / `GoodRow` / `BigTable` (`QV/Lemmas/DataLoad.lean`).
+writer-side predicates `GoodTok` / `GoodRow` / `RectTable` (any `N ≥ 0`, `n ≥ 1`) / `BigTable` (targets only)
+(`QV/Lemmas/DataLoad.lean`).
+
+Gap round: the loaders are modelled AFTER the proposed fix F16 (`proposed/F16_loadtxt_ndmin.diff`: samples and
+per-sample bases read with `ndmin=2`), so the round-trip theorems hold for one-sample and one-site files too;
+`C19_position_k(_states)` name the "position k of every array the library produces" clause on the generated space
+(`overSpace`, `overSpace2`, executed by driver op `c19.arrays`); `QV.Model.HilbertInt` gives the int64 outcome
+classes for arguments outside the documented domain (`C19_subspace_int64`, `C19_size_guard_int`).
 -/
 import Mathlib.Algebra.BigOperators.Fin
 import Mathlib.Logic.Equiv.Fin.Basic
